@@ -1,8 +1,8 @@
 SPECIFICATION Spec
 CONSTANTS
   Mode = "mc"
-  MaxNodes = 9
-  Enabled = {"Module", "Head", "Param", "TyPrim", "TyNamed", "TyPtr", "TyView", "TyArray", "TyArrayC", "TySlice", "TyEndless", "TyArraylike"}
+  MaxNodes = 7
+  Enabled = {"Module", "Fn", "FCall", "Array", "Structural", "FieldFull", "FieldShort", "Deref", "Idx", "Mem", "Len", "Int", "Call"}
   FlagSets <- FlagSets_none
   VarForms <- VarForms_init
   FnNames = {"f"}
@@ -14,13 +14,13 @@ CONSTANTS
   TypeNames = {"S"}
   ConstNames = {"N"}
   Builtins = {"print"}
-  PrimTypes = {"u8", "bool"}
+  PrimTypes = {"u8"}
   WordSizes = {8}
   Files <- Files_one
   IntLits <- IntLits_one
   CharLits <- CharLits_one
   StrLits <- StrLits_one
-  ArrayLens <- ArrayLens_all
+  ArrayLens <- ArrayLens_one
   AddOps = {"+"}
   MulOps = {"*"}
   BitOps = {"&"}
@@ -28,18 +28,18 @@ CONSTANTS
   UnOps = {"-"}
   CmpOps = {"=="}
   MaxDecls = 1
-  MaxParams = 1
+  MaxParams = 0
   MaxMembers = 0
-  MaxStmts = 0
+  MaxStmts = 1
   MaxBlock = 0
-  MaxArgs = 0
-  MaxElems = 0
-  MaxFields = 0
-  MaxSteps = 0
+  MaxArgs = 2
+  MaxElems = 2
+  MaxFields = 1
+  MaxSteps = 1
   Addrs = {0}
   SetAddrs = {0}
   LenAddrs = {0}
-  TrailingCommas = {FALSE}
+  TrailingCommas = {TRUE, FALSE}
   LooseMembers = FALSE
-INVARIANTS TreeOK CountCase
+INVARIANTS TreeOK ToksAgree EmitCase
 CHECK_DEADLOCK FALSE
